@@ -22,6 +22,8 @@ type Spec struct {
 	// Conn2Want: subjects that must have been published on the second epoch's (fresh) connection; the scenario
 	// reports them in a "conn2" observation
 	Conn2Want []string
+	// WantPre: reply subject -> the exact pre-response its handler sends (C07: a pre-response is timeout:"<ms>")
+	WantPre map[string]string
 	// Late: callback ids / request replies that the scenario submits while the service is started (after a
 	// restart) and whose completion it awaits (AwaitQuiescence) before it calls Shutdown again: they must run
 	// (be answered) exactly once even though the scenario also shuts the service down.
@@ -103,6 +105,11 @@ func Judge(sp *Spec, r *vsched.Result) []string {
 				}
 			}
 		case "pub":
+			if want, ok := sp.WantPre[f[1]]; ok && len(f) > 2 && strings.HasPrefix(f[2], "timeout:") {
+				if got := strings.Join(f[2:], " "); got != want {
+					add("C07", "pre-response on %s is %q, its handler called Timeout for %q", f[1], got, want)
+				}
+			}
 			if injected[f[1]] && !(len(f) > 2 && strings.HasPrefix(f[2], "timeout:")) {
 				replies[f[1]]++
 				if replies[f[1]] > 1 {
